@@ -282,7 +282,12 @@ def run_case(case, rec):
         except ValueError as exc:
             rec.fail("C14.json", op="write", cls="file", attr="", detail=f"not strict JSON: {exc}")
         try:
-            reload = InputFile.read_ui_json(out)
+            if rng.random() < 0.5:
+                # options spelled out partially: the missing ones keep their documented defaults
+                reload = InputFile.read_ui_json(out, validation_options={"ignore_list": ()})
+                rec.see("readers-with-partial-options")
+            else:
+                reload = InputFile.read_ui_json(out)
             after = snapshot(reload)
         except Exception as exc:  # noqa: BLE001
             if not exc_origin(exc)[0]:
@@ -382,7 +387,7 @@ def edit_values(rec, in_file, rng, kinds, ids):
         elif kind == "float":
             new = rng.choice([2.5, float("inf"), -1e-12])
         elif kind == "string":
-            new = rng.choice(["edited", "x y"])
+            new = rng.choice(["edited", "x y", " ", "\t", "  two spaces  "])
         elif kind == "bool":
             new = not bool(data[k])
         elif kind == "choice":
